@@ -19,6 +19,9 @@ along with this program.  If not, see <https://www.gnu.org/licenses/>.
 package remote
 
 import (
+	"fmt"
+	"strings"
+
 	"github.com/foxcpp/maddy/framework/config"
 	modconfig "github.com/foxcpp/maddy/framework/config/module"
 	"github.com/foxcpp/maddy/framework/module"
@@ -53,7 +56,10 @@ func (pg *PolicyGroup) Init(cfg *config.Map) error {
 	// are defined in and then reorder depending on the needed order.
 
 	for _, block := range other {
-		if _, ok := pg.pols[block.Name]; ok {
+		// The full module name is accepted by ModuleFromNode as well, the
+		// policy should not be dropped below because it is spelled so.
+		name := strings.TrimPrefix(block.Name, "mx_auth.")
+		if _, ok := pg.pols[name]; ok {
 			return config.NodeErr(block, "duplicate policy block: %v", block.Name)
 		}
 
@@ -63,7 +69,7 @@ func (pg *PolicyGroup) Init(cfg *config.Map) error {
 			return err
 		}
 
-		pg.pols[block.Name] = policy
+		pg.pols[name] = policy
 	}
 
 	for _, name := range [...]string{
@@ -82,6 +88,17 @@ func (pg *PolicyGroup) Init(cfg *config.Map) error {
 			continue
 		}
 		pg.L = append(pg.L, policy)
+	}
+	if len(pg.L) != len(pg.pols) {
+		// Something that is neither of the above was loaded, it would not be
+		// applied.
+		for name := range pg.pols {
+			switch name {
+			case "mtasts", "sts_preload", "dane", "dnssec", "local_policy":
+			default:
+				return fmt.Errorf("mx_auth: unknown policy: %v", name)
+			}
+		}
 	}
 
 	return nil
